@@ -6,6 +6,8 @@
 -/
 import CharsetProof.Props.Full
 import CharsetProof.Props.C13h
+import CharsetProof.Props.C09
+import CharsetProof.Props.C04b
 set_option linter.unusedSectionVars false
 namespace Charset
 
@@ -55,5 +57,53 @@ theorem detection_full_languages (menv : Md.MdEnv) (cenv : Coh.CohEnv) (o : Orac
   exact ⟨C10_languages_full menv cenv o hincl hexcl hb h,
          C19_result_sorted_full menv cenv o hincl hexcl hb h,
          fun hfit => C13_chaos_is_mess_ratio_full_all_sizes menv cenv o hincl hexcl hfit hthr hb h⟩
+
+/-- C09 (restricting to one reported encoding reproduces its verdict), fully modelled world -/
+theorem C09_restricted_full (menv : Md.MdEnv) (cenv : Coh.CohEnv) (o : Oracle) {b : Bytes} {s : Settings}
+    {incl excl : List Name}
+    (hincl : canonList ianaNow s.incl = .ok incl) (hexcl : canonList ianaNow s.excl = .ok excl)
+    {ms : List (Match Name Name)} (hb : b ≠ [])
+    (h : fromBytes (worldFull menv cenv o) tablesNow sortMatches b s = .ok (.ok ms))
+    {m : Match Name Name} (hm : m ∈ ms) {x : Sub Name Name} (hx : x ∈ m.entries)
+    (hsup : x.enc ∈ Gen.supported) :
+    ∃ m0, m0.toSub = x ∧ m0.subs = [] ∧
+      fromBytes (worldFull menv cenv o) tablesNow sortMatches b { s with incl := [x.enc] } = .ok (.ok [m0]) := by
+  apply C09_restricted_same_verdict sortMatches_perm supported_nodup_now hincl hexcl hb h hm hx
+  show canonList ianaNow [x.enc] = .ok [x.enc]
+  simp [canonList, ianaNow_supported hsup]
+
+/-- C04 (valid UTF-8 is never binary), fully modelled world -/
+theorem C04_valid_utf8_full (menv : Md.MdEnv) (cenv : Coh.CohEnv) (o : Oracle) {b : Bytes} {s : Settings}
+    (hb : b ≠ []) (hfb : s.fallback = true) (hincl : s.incl = []) (hexcl : s.excl = [])
+    (hvalid : ∃ t, utf8Strict (b.drop (startIdxOf (ctxOf tablesNow b s) nUTF8)) = .ok t)
+    {ms : List (Match Name Name)}
+    (h : fromBytes (worldFull menv cenv o) tablesNow sortMatches b s = .ok (.ok ms)) : ms ≠ [] := by
+  refine C04_valid_utf8_nonempty (W := worldFull menv cenv o) (T := tablesNow) sortMatches_perm ?_ ?_ ?_ ?_ ?_ hb hfb ?_ ?_ ?_ h
+  · show nUTF8 ∈ Gen.supported; decide +kernel
+  · show Gen.multiByte.contains nUTF8 = true; decide +kernel
+  · exact ⟨by decide, by decide⟩
+  · decide
+  · exact hintsNotSimilarKeys_now nUTF8 (Or.inr (Or.inl rfl))
+  · rw [hincl]; rfl
+  · rw [hexcl]; rfl
+  · obtain ⟨t, ht⟩ := hvalid
+    refine ⟨t, ?_⟩
+    show decodeNow o false nUTF8 (b.drop (startIdxOf (ctxOf tablesNow b s) nUTF8)) = _
+    rw [decodeNow_utf8, ht]
+
+/-- **Detection, fully modelled, verdict clauses – no hypothesis about the world**: every reported candidate that
+    names a supported encoding is reproduced alone by the run restricted to it (C09), and valid UTF-8 with the
+    fallback enabled and no filters is never reported binary (C04) -/
+theorem detection_full_verdicts (menv : Md.MdEnv) (cenv : Coh.CohEnv) (o : Oracle) (b : Bytes) (s : Settings)
+    (hb : b ≠ []) {ms : List (Match Name Name)}
+    (h : fromBytes (worldFull menv cenv o) tablesNow sortMatches b s = .ok (.ok ms)) :
+    (∀ m ∈ ms, ∀ x ∈ m.entries, x.enc ∈ Gen.supported →
+      ∃ m0, m0.toSub = x ∧ m0.subs = [] ∧
+        fromBytes (worldFull menv cenv o) tablesNow sortMatches b { s with incl := [x.enc] } = .ok (.ok [m0])) ∧
+    (s.fallback = true → s.incl = [] → s.excl = [] →
+      (∃ t, utf8Strict (b.drop (startIdxOf (ctxOf tablesNow b s) nUTF8)) = .ok t) → ms ≠ []) := by
+  obtain ⟨incl, excl, hincl, hexcl⟩ := fromBytes_ok_canon h
+  exact ⟨fun m hm x hx hsup => C09_restricted_full menv cenv o hincl hexcl hb h hm hx hsup,
+         fun hfb hi he hv => C04_valid_utf8_full menv cenv o hb hfb hi he hv h⟩
 
 end Charset
